@@ -376,6 +376,7 @@ type c05StepObs struct {
 	KEK      int       `json:"kek_uses"`
 	ResClass uint64    `json:"res_class"` // 0 success, 1 not found, 2 other error
 	Live     []secDump `json:"served"`    // the state the handle serves afterwards
+	Files    []string  `json:"files"`     // names in the state directory
 }
 
 func fileMode(path string) uint64 {
@@ -440,6 +441,7 @@ func (e *c05Env) step(m *c05Markers, st DBStep) c05StepObs {
 	}
 	o.KEK = e.kek.count() - k0
 	o.Live = dumpTok(e.d, e.super, m.token)
+	o.Files = listDir(e.state)
 	bs, _ := os.ReadFile(e.path)
 	o.S = probeFile(bs, e.real, m.token)
 	o.ValHits, o.NameHits = m.scanDir(e.state)
@@ -477,10 +479,26 @@ func c05CoqOp(m *c05Markers, st DBStep) string {
 	return coqOp(st)
 }
 
+func fileCodes(names []string) []uint64 {
+	out := []uint64{}
+	for _, n := range names {
+		switch n {
+		case "db.json":
+			out = append(out, 1)
+		case "audit.log":
+			out = append(out, 2)
+		default:
+			out = append(out, 99)
+		}
+	}
+	sort.Slice(out, func(i, j int) bool { return out[i] < out[j] })
+	return out
+}
+
 func coqSobs(o c05StepObs) string {
-	return fmt.Sprintf("So %s %d %s %s %s %s %s %d %d %d %d %d %d %s", coqNList(o.S.Keys), o.S.Ver,
+	return fmt.Sprintf("So %s %d %s %s %s %s %s %d %d %d %d %d %d %s %s", coqNList(o.S.Keys), o.S.Ver,
 		coqBool(o.S.DEKv1), coqBool(o.S.DEKother), coqBool(o.S.DBv1), coqBool(o.S.DBother), coqDisk(o.S.Doc),
-		len(o.ValHits), len(o.NameHits), o.ModeDB, o.ModeAud, o.KEK, o.ResClass, coqLive(o.Live))
+		len(o.ValHits), len(o.NameHits), o.ModeDB, o.ModeAud, o.KEK, o.ResClass, coqLive(o.Live), coqNList(fileCodes(o.Files)))
 }
 
 func coqHist(m *c05Markers, ops []DBStep, obs []c05StepObs) string {
@@ -617,6 +635,51 @@ type openSession struct {
 	tok    func([]byte) uint64
 	dumps  []string // table of distinct dumps (Gallina), referenced by index
 	dumpIx map[string]int
+	dir    string            // the live state directory
+	snap   map[string]string // every other file of it as the server left it: name -> mode+hash
+}
+
+// snapshot of the directory without the database file itself
+func dirSnapshot(dir, except string) map[string]string {
+	out := map[string]string{}
+	ents, _ := os.ReadDir(dir)
+	for _, e := range ents {
+		if e.Name() == except {
+			continue
+		}
+		p := filepath.Join(dir, e.Name())
+		fi, err := os.Lstat(p)
+		if err != nil {
+			continue
+		}
+		// mode, size, modification time and inode: cheap, and any write, truncation or replacement shows
+		out[e.Name()] = fmt.Sprintf("%v:%d:%d:%d", fi.Mode(), fi.Size(), fi.ModTime().UnixNano(), statIno(fi))
+	}
+	return out
+}
+
+// sideEffects: what an open attempt did to the directory (it must do nothing)
+func (s *openSession) sideEffects(written []byte) []string {
+	var out []string
+	now := dirSnapshot(s.dir, filepath.Base(s.path))
+	for n, v := range now {
+		if old, ok := s.snap[n]; !ok {
+			out = append(out, "created "+n)
+		} else if old != v {
+			out = append(out, "modified "+n)
+		}
+	}
+	for n := range s.snap {
+		if _, ok := now[n]; !ok {
+			out = append(out, "removed "+n)
+		}
+	}
+	if bs, err := os.ReadFile(s.path); err != nil || !bytes.Equal(bs, written) {
+		out = append(out, "modified the database file")
+	}
+	sort.Strings(out)
+	s.snap = now // report each effect once
+	return out
 }
 
 type attempt struct {
@@ -627,6 +690,7 @@ type attempt struct {
 	Dump   []secDump `json:"contents,omitempty"`
 	Given  int       `json:"uses_of_given_key"`
 	Others int       `json:"uses_of_other_keys"`
+	Side   []string  `json:"side_effects,omitempty"` // files of the directory the attempt created / removed / modified
 	Err    string    `json:"error,omitempty"`
 	Panic  bool      `json:"panic,omitempty"`
 }
@@ -656,6 +720,7 @@ func (s *openSession) try(kind string, t tamperCase) attempt {
 			a.Others += k.count() - before[i]
 		}
 	}
+	a.Side = s.sideEffects(t.bytes)
 	if err != nil {
 		a.Err = err.Error()
 		return a
@@ -702,12 +767,12 @@ func (s *openSession) coq(a attempt) string {
 		}
 		out = fmt.Sprintf("(Some %d)", i)
 	}
-	return fmt.Sprintf("At %s %s %d %d", a.Kind, out, a.Given, a.Others)
+	return fmt.Sprintf("At %s %s %d %d %d", a.Kind, out, a.Given, a.Others, len(a.Side))
 }
 
 // suspicious: routing only (such attempts get a report of their own; the kernel judges all)
 func suspicious(a attempt, orig []secDump) bool {
-	if a.Panic || a.Others != 0 || a.Given > 1 {
+	if a.Panic || a.Others != 0 || a.Given > 1 || len(a.Side) > 0 {
 		return true
 	}
 	switch a.Kind {
@@ -868,17 +933,36 @@ func dropLatest(d []secDump) []secDump {
 	return out
 }
 
+// newSession: the attempts are made on the database file ITSELF, in the live state directory,
+// everything else in it left as the server left it (sidecar files included, if the code under
+// test keeps any); the original bytes are restored after every attempt.
+// severalSaves: the database the open attempts are made on has several saves behind it, the
+// last ones being: a secret created, given a second version and DELETED again, then two more
+// versions of another one (so that any older copy of the file has visibly different contents).
+func severalSaves(env *c05Env, mseed uint64, last []secDump) []secDump {
+	mk := genMarkers(mseed)
+	ghost := string(mk.names[3]) + "-gone"
+	env.down.down = false
+	env.d.Put(env.super, ghost, mk.values[0])
+	env.d.Put(env.super, ghost, mk.values[1])
+	env.d.Delete(env.super, ghost)
+	env.d.Put(env.super, string(mk.names[0]), mk.values[2])
+	env.d.Put(env.super, string(mk.names[0]), mk.values[3])
+	if bs, err := os.ReadFile(env.path); err == nil {
+		return probeFile(bs, env.real, mk.token).Doc
+	}
+	return last
+}
+
 func newSession(work string, env *c05Env, m *c05Markers) *openSession {
-	dir := filepath.Join(work, "c05sess")
-	os.RemoveAll(dir)
-	os.MkdirAll(dir, 0700)
 	orig, _ := os.ReadFile(env.path)
-	s := &openSession{path: filepath.Join(dir, "db.json"), orig: orig, tok: m.token, dumpIx: map[string]int{}}
+	s := &openSession{path: env.path, dir: env.state, orig: orig, tok: m.token, dumpIx: map[string]int{}}
 	s.keys = []*countingAEAD{{inner: env.real}, {inner: newKEK()}, {inner: newKEK()}}
 	_, gkeks := goldenFiles()
 	for _, gk := range gkeks {
 		s.keys = append(s.keys, &countingAEAD{inner: gk})
 	}
+	s.snap = dirSnapshot(s.dir, filepath.Base(s.path))
 	return s
 }
 
@@ -910,7 +994,7 @@ func (s *openSession) record(in C05Input, class, detail string, orig []secDump, 
 func runOpens(work string, r *rand.Rand, env *c05Env, m *c05Markers, in C05Input, origDoc []secDump, thorough bool, only *C05Input) []Record {
 	orig := dropLatest(origDoc)
 	s := newSession(work, env, m)
-	defer os.RemoveAll(filepath.Dir(s.path))
+	defer os.WriteFile(s.path, s.orig, 0600)
 	var recs []Record
 	byClass := map[string][]attempt{}
 	nAlt := map[string]int{}
@@ -919,6 +1003,13 @@ func runOpens(work string, r *rand.Rand, env *c05Env, m *c05Markers, in C05Input
 	tampers := genTampers(r, env, s.keys, m, work, thorough)
 	// foreign keys first (so that they are also the first to be reported), then the alterations
 	sort.SliceStable(tampers, func(i, j int) bool { return tampers[i].class == "foreign-kek" && tampers[j].class != "foreign-kek" })
+	// ... and before them one plain damage of the file in place (cut in half), so that it is among the first reports
+	for i, t := range tampers {
+		if t.class == "truncate" && len(t.bytes) == len(s.orig)/2 {
+			tampers[0], tampers[i] = tampers[i], tampers[0]
+			break
+		}
+	}
 	for _, t := range tampers {
 		if only != nil && (only.Class != t.class || only.Detail != t.detail) {
 			continue
@@ -1123,6 +1214,7 @@ func runC05(o Opts) {
 				rec, env, last := runC05History(work, i, in.MSeed, in.Outage, in.Ops, nil, 0)
 				if env != nil {
 					hin := rec.Input.(C05Input)
+					last = severalSaves(env, in.MSeed, last)
 					only := in
 					if in.Detail == "" {
 						for _, r := range runOpens(work, NewRand(o.Seed, 7), env, genMarkers(in.MSeed), hin, last, thorough, nil) {
@@ -1191,6 +1283,7 @@ func runC05(o Opts) {
 			histSelf = &c
 		}
 		if i < nt {
+			last = severalSaves(env, mseed, last)
 			for _, tr := range runOpens(work, r, env, genMarkers(mseed), rec.Input.(C05Input), last, thorough, nil) {
 				tr.ID = out.n
 				out.Emit(tr)
@@ -1198,7 +1291,7 @@ func runC05(o Opts) {
 					c := tr
 					tampSelf = &c
 				}
-				if keySelf == nil && strings.Contains(tr.Coq, "At AF None 1 0") {
+				if keySelf == nil && strings.Contains(tr.Coq, "At AF None 1 0 0") {
 					c := tr
 					keySelf = &c
 				}
@@ -1243,12 +1336,16 @@ func runC05(o Opts) {
 		out.Emit(alt)
 	}
 	if keySelf != nil {
+		alt3 := *keySelf
+		alt3.Coq = strings.Replace(keySelf.Coq, "At AF None 1 0 0", "At AF None 1 0 1", 1) // an attempt that left something behind in the directory
+		alt3.SelfTest, alt3.SelfOf, alt3.Obs = true, keySelf.ID, nil
+		out.Emit(alt3)
 		alt := *keySelf
-		alt.Coq = strings.Replace(keySelf.Coq, "At AF None 1 0", "At AF None 0 0", 1) // a foreign key refused without being consulted
+		alt.Coq = strings.Replace(keySelf.Coq, "At AF None 1 0 0", "At AF None 0 0 0", 1) // a foreign key refused without being consulted
 		alt.SelfTest, alt.SelfOf, alt.Obs = true, keySelf.ID, nil
 		out.Emit(alt)
 		alt2 := *keySelf
-		alt2.Coq = strings.Replace(keySelf.Coq, "At AF None 1 0", "At AF (Some 0) 0 0", 1) // a foreign key let through
+		alt2.Coq = strings.Replace(keySelf.Coq, "At AF None 1 0 0", "At AF (Some 0) 0 0 0", 1) // a foreign key let through
 		alt2.SelfTest, alt2.SelfOf, alt2.Obs = true, keySelf.ID, nil
 		out.Emit(alt2)
 	}
